@@ -36,6 +36,7 @@ type checkOpts struct {
 	dump     string
 	seed     int64
 	noReplay bool
+	budget   int
 }
 
 func main() {
@@ -55,6 +56,7 @@ func main() {
 		fs.BoolVar(&o.verbose, "v", false, "verbose")
 		fs.StringVar(&o.dump, "dump", "", "directory to dump SMT queries into")
 		fs.BoolVar(&o.noReplay, "noreplay", false, "skip replay")
+		fs.IntVar(&o.budget, "budget", 0, "per-obligation solver budget in seconds (default 10 quick / 60 thorough)")
 		fs.Parse(os.Args[2:])
 		if s := os.Getenv("VERIF_SEED"); s != "" {
 			o.seed, _ = strconv.ParseInt(s, 10, 64)
@@ -130,6 +132,9 @@ func runCheck(o *checkOpts) int {
 	if o.tier == "thorough" {
 		budget = 60
 	}
+	if o.budget > 0 {
+		budget = o.budget
+	}
 	keys := append([]string{}, w.Cs.Order...)
 	sort.Strings(keys)
 	for _, key := range keys {
@@ -197,6 +202,29 @@ func runCheck(o *checkOpts) int {
 			jobs = append(jobs, job{q, fr.Short})
 		}
 	}
+	// zero values satisfy the type invariants (justifies the axiom for abstract invariants)
+	if o.only == "" {
+		for _, tk := range sortedKeys(w.Cs.TypeInvs) {
+			fr := w.lowerZeroInv(tk)
+			if fr == nil {
+				continue
+			}
+			ps, err := passify(fr.Proc)
+			if err != nil {
+				missing = append(missing, fr.Short+": "+err.Error())
+				continue
+			}
+			for _, q := range ps.queries(w.axiomsFor) {
+				if o.prop != "" && len(q.Ob.Tags) > 0 && !hasTag(q.Ob.Tags, o.prop) {
+					continue
+				}
+				if o.prop != "" && !anyDep {
+					continue
+				}
+				jobs = append(jobs, job{q, fr.Short})
+			}
+		}
+	}
 	if anyDep && o.only == "" {
 		for _, q := range lemmaObligations() {
 			jobs = append(jobs, job{q, "prelude"})
@@ -221,7 +249,33 @@ func runCheck(o *checkOpts) int {
 			sem <- struct{}{}
 			defer func() { <-sem }()
 			oc := discharge(j.q, pre, budget, o.tier == "thorough")
-			results[i] = &obResult{Ob: j.q.Ob, Status: oc.Status, By: oc.By, Secs: oc.SolverS, Size: j.q.Size, Outcome: oc}
+			res := &obResult{Ob: j.q.Ob, Status: oc.Status, By: oc.By, Secs: oc.SolverS, Size: j.q.Size, Outcome: oc}
+			if oc.Status != "discharged" && len(j.q.Parts) > 0 {
+				// conjunctive goal: decide conjunct by conjunct; the whole holds iff every conjunct does
+				all := true
+				var bad []string
+				for _, pq := range j.q.Parts {
+					poc := discharge(pq, pre, budget, o.tier == "thorough")
+					res.Secs += poc.SolverS
+					if poc.Status != "discharged" {
+						all = false
+						bad = append(bad, pq.Ob.Descr[strings.LastIndex(pq.Ob.Descr, " -- conjunct "):])
+						if poc.Status == "refuted" {
+							res.Status = "refuted"
+							res.Outcome = poc
+						}
+					} else if res.By == "" {
+						res.By = poc.By
+					}
+				}
+				if all {
+					res.Status = "discharged"
+				} else {
+					res.Ob = &Obligation{Name: j.q.Ob.Name, Tags: j.q.Ob.Tags, Func: j.q.Ob.Func, Kind: j.q.Ob.Kind, Pos: j.q.Ob.Pos, Cover: j.q.Ob.Cover,
+						Descr: j.q.Ob.Descr + strings.Join(bad, ";")}
+				}
+			}
+			results[i] = res
 		}(i, j)
 	}
 	wg.Wait()
